@@ -1,10 +1,11 @@
 (* C05 - A line's effect never depends on earlier lines except through metrics.
    Statements only; proofs live in Proofs/.  The model is Lang/TimeReg.v: the
    VM state that survives ProcessLogLine is the strptime memo (a bounded LRU,
-   Lang/Memo.v) and the terminate flag; the thread (time register, stack,
-   captures) is created afresh for every line.  time_parse / add_years are the
+   Lang/Memo.v) and the terminate flag; the thread (time register, stacks,
+   match table = capture results) is created afresh for every line, and
+   C05_line_local therefore speaks about captures as well.  time_parse / add_years are the
    Go time library (any functions); the wall clock is part of each line. *)
-From Coq Require Import List ZArith.
+From Coq Require Import List ZArith Bool.
 From V Require Import Lang.Memo Lang.TimeReg Proofs.MemoProofs Proofs.TimeRegProofs.
 Import ListNotations.
 Local Open Scope Z_scope.
@@ -56,6 +57,40 @@ Theorem C05_lines_local :
     fst (run_lines_new time_parse add_years cfg more (fst wv, vm_init_new)).
 Proof. exact lines_local. Qed.
 
+(* captures: the match table belongs to the thread, which is new for every
+   line.  Whatever the history, reading a capture group of a regexp that no
+   Match on THIS line has evaluated (e.g. the right operand of a `||` whose
+   left operand was true) is a runtime error that ends the line: a result
+   captured on an earlier line is never seen *)
+Theorem C05_captures_fresh :
+  forall time_parse add_years cfg hist w0 now year pre re k,
+    forallb (fun e => negb (matches_re re e)) pre = true ->
+    let s := exec_new time_parse add_years cfg now year pre (line_start time_parse add_years cfg hist w0) in
+    v_term (s_vm s) = false ->
+    let s' := step_new time_parse add_years cfg now year (ECapref re k) s in
+    w_errs (s_w s') = N.succ (w_errs (s_w s)) /\ w_store (s_w s') = w_store (s_w s) /\
+    v_term (s_vm s') = true.
+Proof. exact capture_needs_match_on_this_line. Qed.
+
+(* ... and a capture read returns the group of the last Match of that regexp
+   on this line (error when it missed or has too few groups) *)
+Theorem C05_capture_reads_this_line :
+  forall time_parse add_years cfg hist w0 now year pre re res mid k,
+    forallb (fun e => negb (matches_re re e)) mid = true ->
+    let s := exec_new time_parse add_years cfg now year (pre ++ EMatch re res :: mid)
+               (line_start time_parse add_years cfg hist w0) in
+    v_term (s_vm s) = false ->
+    let s' := step_new time_parse add_years cfg now year (ECapref re k) s in
+    match res with
+    | Some gs =>
+        match nth_error gs k with
+        | Some g => t_strs (s_th s') = g :: t_strs (s_th s) /\ s_w s' = s_w s /\ v_term (s_vm s') = false
+        | None => v_term (s_vm s') = true /\ w_errs (s_w s') = N.succ (w_errs (s_w s))
+        end
+    | None => v_term (s_vm s') = true /\ w_errs (s_w s') = N.succ (w_errs (s_w s))
+    end.
+Proof. exact capture_reads_last_match. Qed.
+
 (* the memo before the repair (keyed by the value alone, failed parses cached):
    the statement of C05_line_local is false of it *)
 Theorem C05_memo_refuted :
@@ -89,6 +124,8 @@ Print Assumptions C05_memo_sound_preserved.
 Print Assumptions C05_memo_bounded.
 Print Assumptions C05_line_local.
 Print Assumptions C05_lines_local.
+Print Assumptions C05_captures_fresh.
+Print Assumptions C05_capture_reads_this_line.
 Print Assumptions C05_memo_refuted.
 Print Assumptions C05_memo_refuted_detail.
 Print Assumptions C05_nontrivial_history.
